@@ -29,6 +29,14 @@ theorem next_no_ub (m : RawMap K V) (f : Nat) (st : ItState K V) (r : RangeState
     NoUB (itemNext Cfg.repaired m f st) ∧ NoUB (rangeNext Cfg.repaired m f r) ∧ NoUB (fastNext Cfg.repaired m f fs) :=
   ⟨itemNext_noub _ rfl m f st, rangeNext_noub _ rfl m f r, fastNext_noub _ rfl m f fs⟩
 
+/-- the public positioned constructors (`RangeIterator::new_with_skip_owned`,
+    `ItemIterator::new_from_position_with_bounds`) are safe calls too: started at *any* `(leaf id, index)` — a free
+    slot, an id never issued, the one-past-the-end index, with or without `skip_first` — on any raw map -/
+theorem positioned_constructors_no_ub (m : RawMap K V) (info : Option (Nat × Nat)) (skip : Bool) (hi : Bound K)
+    (leafId idx : Nat) (e : Bound K) :
+    NoUB (m.rangeFrom Cfg.repaired info skip hi) ∧ NoUB (m.itemsFromPos Cfg.repaired leafId idx e) :=
+  positioned_noub m info skip hi leafId idx e
+
 /-- the defect as found (D4), on its witnesses: both patterns reach `ub` from safe calls; the repaired readers do not -/
 theorem legacy_witnesses :
     (p1Witness.items { guardBoth := false } = .ub ∧ p1Witness.items Cfg.repaired = .ok []) ∧
